@@ -23,8 +23,9 @@ SCHEMA = f'''<xs:schema {XS} targetNamespace="urn:t" xmlns:t="urn:t" elementForm
       <xs:element name="on" minOccurs="0"><xs:complexType><xs:simpleContent><xs:extension base="xs:boolean"><xs:attribute name="src" type="xs:token"/></xs:extension></xs:simpleContent></xs:complexType></xs:element>
       <xs:element name="tries" minOccurs="0" default="3"><xs:complexType><xs:simpleContent><xs:extension base="xs:int"><xs:attribute name="u" type="xs:token"/></xs:extension></xs:simpleContent></xs:complexType></xs:element>
       <xs:element name="vals" minOccurs="0"><xs:complexType><xs:simpleContent><xs:extension base="t:ints"><xs:attribute name="unit" type="xs:token"/></xs:extension></xs:simpleContent></xs:complexType></xs:element>
-      <xs:element name="mix" minOccurs="0"><xs:complexType mixed="true"><xs:sequence><xs:element name="b" type="xs:string" minOccurs="0" maxOccurs="unbounded"/></xs:sequence></xs:complexType></xs:element>
+      <xs:element name="mix" minOccurs="0"><xs:complexType mixed="true"><xs:sequence><xs:element name="b" minOccurs="0" maxOccurs="unbounded"><xs:complexType><xs:simpleContent><xs:extension base="xs:string"><xs:attribute name="k" type="xs:int"/></xs:extension></xs:simpleContent></xs:complexType></xs:element></xs:sequence></xs:complexType></xs:element>
       <xs:element name="end" type="xs:token"/>
+      <xs:element name="u" type="xs:string" form="unqualified" minOccurs="0"/>
      </xs:sequence><xs:attribute name="id" type="xs:ID" use="required"/><xs:attribute name="w" type="xs:double"/><xs:attribute name="ver" type="xs:int" fixed="2"/></xs:complexType></xs:element>
   </xs:sequence></xs:complexType></xs:element></xs:schema>'''
 NS = {'t': 'urn:t'}
@@ -46,8 +47,11 @@ def gen(rng):
         if rng.random() < .5: parts.append(f'<t:on src="ui">{rng.choice(["false", "0", "true"])}</t:on>')
         if rng.random() < .4: parts.append(f'<t:tries u="n">{rng.choice(["0", "5"])}</t:tries>')
         if rng.random() < .5: parts.append(rng.choice(['<t:vals>1 2</t:vals>', '<t:vals unit="m">3 4 5</t:vals>', '<t:vals>7</t:vals>']))      # list-valued simple content, with and without its attribute
-        if rng.random() < .4: parts.append(f'<t:mix>{rng.choice(["", "x"])}<t:b>y</t:b>{rng.choice(["", "z"])}<t:b>w</t:b></t:mix>')
-        parts.append('<t:end>e</t:end>')        # a required particle after the optional ones: data truncated before an optional particle is incomplete
+        if rng.random() < .3: parts.append(f'<t:mix>{rng.choice(["", "x"])}<t:b>y</t:b>{rng.choice(["", "z"])}<t:b>w</t:b></t:mix>')
+        if rng.random() < .3 and not any('mix>' in x for x in parts):     # namespace declarations two levels deep (a default namespace, a prefix below it), then an unqualified local sibling: scopes must close
+            parts.append('<mix xmlns="urn:t">' + rng.choice(['', 'x']) + '<b k="1" xmlns:q="urn:q">y</b><b>w</b></mix>')
+        parts.append('<t:end>e</t:end>')
+        if rng.random() < .4: parts.append('<u>plain</u>')        # a required particle after the optional ones: data truncated before an optional particle is incomplete
         w = rng.choice(['', ' w="1.5"', ' w="INF"', ' w="1e3"']) + rng.choice([' ver="2"', ' ver="02"'])       # an attribute with a fixed value, always present (an absent one is filled in by decoding), in two lexical forms
         items.append(f'<t:item id="i{i}"{w}>' + ''.join(parts) + '</t:item>')
     return '<t:r xmlns:t="urn:t">' + ''.join(items) + '</t:r>'
@@ -110,7 +114,9 @@ def eval_doc(args):
         try: d2 = s.decode(txt, **kw)
         except Exception as exn: bad.append((name, f're-decode raised {type(exn).__name__}')); continue
         if shape(ET.fromstring(txt)) != shape(root): bad.append((name, 'element structure / attribute sets differ'))
-        if name != 'dataelement' and d2 != d: bad.append((name, f're-decoded data differs: {str(d)[:60]} vs {str(d2)[:60]}'))
+        # with namespace declarations below the root the serialiser may spell the same expanded names with other prefixes: the key spelling is C17's subject, here the
+        # structure (expanded tags, attribute sets) and the validity of the encoded tree decide
+        if name != 'dataelement' and d2 != d and ' xmlns="urn:t"' not in doc: bad.append((name, f're-decoded data differs: {str(d)[:60]} vs {str(d2)[:60]}'))
     # encoder soundness on mutated data (default converter)
     rng = random.Random(mseed); base = s.decode(doc)
     for _ in range(6):
